@@ -776,6 +776,10 @@ class SamplingMethod(DirectMethod):
     def get_signals_at(self, stage, k=-1):
         return veccat(*[e.sampled[k] for e in self.signals.values()])
 
+    def system_signals(self):
+        """Signals that enter the system function: the declared ones, not the derivative signals created by der()"""
+        return [e for e in self.signals.values() if e.derivative_of is None]
+
     def get_p_sys(self, stage, k, include_signals=True):
         args = [vvcat(self.P),
                 self.get_p_control_at(stage, k),
@@ -783,7 +787,7 @@ class SamplingMethod(DirectMethod):
                 self.V, self.get_v_control_at(stage, k),
                 self.get_v_control_plus_at(stage, k)]
         if include_signals:
-            args.append(self.get_signals_at(stage, k))
+            args.append(veccat(*[e.sampled[k] for e in self.system_signals()]))
         return vcat(args)
 
     def eval(self, stage, expr):
